@@ -237,6 +237,11 @@ def r2(chk):
             continue
         eff = copied.get(slot[v])
         exp = [(f"self.{want[n]}", "extend", [f"other.{want[n]}"])]
+
+        def nrm(es):
+            # copying by value or through clone()/iter().cloned()/to_vec() is the same copy
+            return [(a, "extend" if b in ("extend", "append", "extend_from_slice") else b, [re.sub(r"(\.clone\(\)|\.iter\(\)(\.cloned\(\))?|\.to_vec\(\)|\.into_iter\(\))+$", "", str(x)) for x in c]) for a, b, c in (es or [])]
+        eff = nrm(eff) if eff is not None else None
         chk.expect("R2", key, slot[v] == pos and eff == exp, ATTR, fm.line, "repeat category copies the wrong instruction vector (or its list position and slot disagree)",
                    expected={"slot": pos, "copies": exp}, found={"slot": slot[v], "copies": eff})
     chk.expect("R2", "member-repeat/all", sorted(names) == sorted(want), ATTR, fm.line, "documented member repeat categories", expected=sorted(want), found=names)
@@ -296,6 +301,13 @@ def r4(chk):
         d = lf.decisions
         o = d.get("ctx.field_attrs_to_repeat")
         perm = d.get("ctx.field_attrs_to_repeat!.1")
+        if perm is None:
+            # the permeate flag under another representation (named field, matches! guard): any boolean atom below the open block
+            cand = [v for a, v in d.items() if a.startswith("ctx.field_attrs_to_repeat") and a != "ctx.field_attrs_to_repeat" and isinstance(v, bool) and re.search(r"perm|\.1\b", a)]
+            perm = cand[0] if len(cand) == 1 else None
+            if o == "Some" and perm is None:
+                chk.inconc("R4", f"Variant::from_syn[open=Some]: the permeate flag of the open block is not identifiable among {sorted(d)[:4]}")
+                continue
         effs = [e for e in lf.effects if e[0] == "assign" or (e[0] == "summary" and "multiple_from_syn" in e[1])]
         kinds_ = ["fields" if e[0] == "summary" else ("reset" if e[2] == "None" else "set") for e in effs]
         if o == "Some" and perm is False:
@@ -310,7 +322,10 @@ def r4(chk):
     fs = repo.fn(AST, "from_syn", impl="Struct")
     cs = [c for c in calls(fs.body, "multiple_from_syn")]
     a0 = render(cs[0]["args"][0]).replace(" ", "") if len(cs) == 1 else None
-    chk.expect("R4", "Struct::from_syn/fresh-context", a0 == "&mutDefault::default()", AST, fs.line, "struct fields must start with no open repeat block", found=a0)
+    ctx_args = [render(a).replace(" ", "") for c in cs for a in c["args"] if re.search(r"default\(\)|Context\{|ctx", render(a))] if cs else []
+    good = len(cs) == 1 and any(a in ("&mutDefault::default()", "&mutContext::default()") for a in ctx_args)
+    bad = len(cs) == 1 and any(re.fullmatch(r"&mut\w+|\w+", a) and not a.endswith("default()") for a in ctx_args)  # an existing context is passed on
+    chk.shape("R4", "Struct::from_syn/fresh-context", good, bad and not good, AST, fs.line, what="struct fields must start with no open repeat block", found=ctx_args or a0)
     fv = repo.fn(AST, "multiple_from_syn", impl="Variant")
     ctx_init = [n for n in walk(fv.body) if n["k"] == "Struct" and n["path"] == "Context"]
     lit_ok = len(ctx_init) == 1 and all(render(f["expr"]) == "None" for f in ctx_init[0]["fields"]) and len(ctx_init[0]["fields"]) == 2
